@@ -171,22 +171,43 @@ def run_delta(args, stdin=b"", env=None, timeout=20, cwd=None, binary=None, mem_
         argv = ["prlimit", f"--as={mem_kb * 1024}", "--core=0"] + argv
     # A time-out is a verdict ("did not terminate") only if it is not the machine's fault: a run that exceeds its
     # budget is repeated once, alone (under a lock, so that at most one such retry runs at a time) and with a budget
-    # twelve times as large; only if that one times out too is the run reported as timed out.
+    # three times as large (at least a minute); only if that one times out too is the run reported as timed out.
     for attempt in (0, 1):
-        if attempt == 1 and _CONFIRMED_TIMEOUTS[0] >= 3:
+        if attempt == 1 and _CONFIRMED_TIMEOUTS[0] >= 2:
             break          # non-termination has been confirmed several times in this check: no need to wait again
-        budget = timeout if attempt == 0 else max(120, timeout * 12)
+        budget = timeout if attempt == 0 else max(60, timeout * 3)
         try:
             if attempt == 1:
                 _RETRY_LOCK.acquire()
-            p = subprocess.run(argv, input=stdin, env=full_env, cwd=r.cwd, timeout=budget,
-                               stdout=subprocess.PIPE, stderr=subprocess.PIPE)
-            r.out, r.err, r.code, r.timed_out = p.stdout, p.stderr, p.returncode, False
+            # (own session: on a time-out the whole tree is removed - delta may have children of its own, a pager or a wrapped
+            # command, and may itself be the child of a shell; a survivor holding the pipes must not keep this call waiting)
+            p = subprocess.Popen(argv, stdin=subprocess.PIPE, env=full_env, cwd=r.cwd, stdout=subprocess.PIPE, stderr=subprocess.PIPE,
+                                 start_new_session=True)
+            try:
+                out, err = p.communicate(stdin, timeout=budget)
+                r.out, r.err, r.code, r.timed_out = out, err, p.returncode, False
+                break
+            except subprocess.TimeoutExpired:
+                import signal
+                try:
+                    os.killpg(p.pid, signal.SIGKILL)
+                except OSError:
+                    pass
+                try:
+                    out, err = p.communicate(timeout=10)
+                except subprocess.TimeoutExpired:
+                    out, err = b"", b""
+                    for f in (p.stdout, p.stderr):
+                        try:
+                            f.close()
+                        except OSError:
+                            pass
+                r.out, r.err, r.code, r.timed_out = out or b"", err or b"", -999, True
+                if attempt == 1:
+                    _CONFIRMED_TIMEOUTS[0] += 1
+        except OSError as e:
+            r.out, r.err, r.code, r.timed_out = b"", str(e).encode(), -998, False
             break
-        except subprocess.TimeoutExpired as e:
-            r.out, r.err, r.code, r.timed_out = e.stdout or b"", e.stderr or b"", -999, True
-            if attempt == 1:
-                _CONFIRMED_TIMEOUTS[0] += 1
         finally:
             if attempt == 1:
                 _RETRY_LOCK.release()
@@ -261,11 +282,20 @@ class Verdict:
         try:
             with _RETRY_LOCK:
                 time.sleep(0.2)
-                p = subprocess.run(run["argv"], input=base64.b64decode(run.get("stdin_b64", "")), env=base_env(env),
-                                   cwd=run.get("cwd") or None, timeout=180, stdout=subprocess.PIPE, stderr=subprocess.PIPE)
-        except (subprocess.TimeoutExpired, OSError):
+                p = subprocess.Popen(run["argv"], stdin=subprocess.PIPE, env=base_env(env), cwd=run.get("cwd") or None,
+                                     stdout=subprocess.PIPE, stderr=subprocess.PIPE, start_new_session=True)
+                try:
+                    out, _ = p.communicate(base64.b64decode(run.get("stdin_b64", "")), timeout=180)
+                except subprocess.TimeoutExpired:
+                    import signal
+                    try:
+                        os.killpg(p.pid, signal.SIGKILL)
+                    except OSError:
+                        pass
+                    return False
+        except OSError:
             return False
-        return p.stdout[:200000] != base64.b64decode(run["stdout_b64"]) or p.returncode != run.get("code")
+        return out[:200000] != base64.b64decode(run["stdout_b64"]) or p.returncode != run.get("code")
 
     def violation(self, signature, what, payload):
         """signature: a stable abstract identification of the failing behaviour (string)."""
